@@ -58,6 +58,46 @@ def d_protocols(g, tier):
     return gen.protocols_session(g)
 
 
+MODELS = {
+    # name: (module, quick cfg, thorough cfg, parsers, quick vector limit)
+    "framing": ("MC_Framing.tla", "MC_Framing_quick.cfg", "MC_Framing_thorough.cfg", ["A"], 9000),
+}
+
+
+def model_run(name, tier, seed):
+    """exhaustive TLC run of a bounded model (cached); its vectors are replayed by driver_run('vec:<name>')"""
+    module, qcfg, tcfg, parsers, limit = MODELS[name]
+    cfg = qcfg if tier == "quick" else tcfg
+    th = vf.tree_hash()
+    cdir = os.path.join(vf.OUT, "cache", th, "model-%s-%s" % (name, tier))
+    done = os.path.join(cdir, "model.json")
+    if os.path.exists(done):
+        with open(done) as f:
+            return json.load(f)
+    shutil.rmtree(cdir, ignore_errors=True)
+    os.makedirs(cdir)
+    r = vf.tlc_model(module, cfg, cdir, workers=min(12, vf.NCPU), timeout=900 if tier == "quick" else 7200)
+    log("model %s (%s): ok=%s states=%d transitions=%d vectors=%d %.1fs" % (name, cfg, r["ok"], r["states"], r["transitions"], r["nvec"], r["wall_s"]))
+    if not r["ok"]:
+        with open(os.path.join(cdir, "tlc.out")) as f:
+            tail = f.read()[-3000:]
+        raise vf.ToolError("the bounded model %s violates one of its own properties or did not finish (a defect of the specification, not a verdict):\n%s" % (name, tail))
+    with open(done, "w") as f:
+        json.dump(r, f)
+    return r
+
+
+def vector_ops(name, tier, seed):
+    module, qcfg, tcfg, parsers, limit = MODELS[name]
+    m = model_run(name, tier, seed)
+    vecs = vf.read_vectors(m["vectors_file"], limit if tier == "quick" else None, seed)
+    ops = []
+    for v in vecs:
+        ops += gen.ops_reset(parsers)
+        ops += v
+    return ops
+
+
 DRIVERS = {"corpus": d_corpus, "conformant": d_conformant, "mutate": d_mutate, "truncate": d_truncate,
            "hostile": d_hostile, "protocols": d_protocols}
 
@@ -72,6 +112,7 @@ PROP_DRIVERS = {
     "C08": ["corpus", "conformant", "mutate"],
     "C09": ["corpus", "conformant", "mutate"],
     "C10": ["corpus", "conformant", "mutate"],
+    "C11": ["corpus", "conformant"],
     "C12": ["corpus", "mutate", "conformant"],
     "C13": ["corpus", "conformant", "mutate"],
     "C14": ["corpus", "truncate", "mutate"],
@@ -95,7 +136,7 @@ def driver_run(name, tier, seed, puf=True):
     os.makedirs(cdir)
     t = time.time()
     g = gen.Gen(seed * 1000003 + int(hashlib.sha256(name.encode()).hexdigest()[:6], 16), vf.kinds(binary))
-    ops = DRIVERS[name](g, tier)
+    ops = vector_ops(name[4:], tier, seed) if name.startswith("vec:") else DRIVERS[name](g, tier)
     opsf = os.path.join(cdir, "ops.ndjson")
     trf = os.path.join(cdir, "trace.ndjson")
     vf.write_ops(opsf, ops)
@@ -128,7 +169,7 @@ def prune_cache(keep):
 
 
 # ----------------------------------------------------------------------------- check
-def emit(prop, tier, seed, t0, runs, extra_findings=(), level="model_checking", extra_cov=None):
+def emit(prop, tier, seed, t0, runs, extra_findings=(), level="model_checking", extra_cov=None, models=()):
     known = vf.load_known()
     findings = list(extra_findings)
     for r in runs:
@@ -154,8 +195,10 @@ def emit(prop, tier, seed, t0, runs, extra_findings=(), level="model_checking", 
         vf.write_ops(rp, fd.get("replay_ops", []))
         print("VIOLATION property=%s replay=%s signature=%s occurrences=%d driver=%s" % (prop, rp, json.dumps(list(sig)), len(fds), fd.get("driver", "")))
     cov = {
-        "states": max(1, sum(r.get("states", 0) for r in runs)),
-        "transitions": max(1, sum(r.get("events", 0) for r in runs)),
+        "states": max(1, sum(m["states"] for m in models) + sum(r.get("states", 0) for r in runs)),
+        "transitions": max(1, sum(m["transitions"] for m in models) + sum(r.get("events", 0) for r in runs)),
+        "model_states": sum(m["states"] for m in models),
+        "trace_states": sum(r.get("states", 0) for r in runs),
         "traces_validated_against_impl": sum(r.get("sessions", 0) for r in runs),
         "calls_validated": sum(r.get("calls", 0) for r in runs),
         "events_matched_reference_run": sum(1 for r in runs for c in r["cov"] if c["matched"]),
@@ -180,11 +223,19 @@ def emit(prop, tier, seed, t0, runs, extra_findings=(), level="model_checking", 
     return 1 if seen else 0
 
 
+PROP_MODELS = {
+    "C01": ["framing"], "C02": ["framing"], "C03": ["framing"], "C08": ["framing"], "C11": ["framing"], "C12": ["framing"], "C14": ["framing"],
+}
+
+
 def check(prop, tier, seed, t0):
     if prop not in PROP_DRIVERS:
         raise vf.ToolError("no pipeline for " + prop)
-    runs = [driver_run(d, tier, seed) for d in PROP_DRIVERS[prop]]
-    return emit(prop, tier, seed, t0, runs)
+    models = [model_run(m, tier, seed) for m in PROP_MODELS.get(prop, [])]
+    runs = [driver_run("vec:" + m, tier, seed) for m in PROP_MODELS.get(prop, [])]
+    runs += [driver_run(d, tier, seed) for d in PROP_DRIVERS[prop]]
+    extra = {"models": {m["module"] + ":" + m["cfg"]: {"states": m["states"], "transitions": m["transitions"], "vectors": m["nvec"], "wall_s": m["wall_s"]} for m in models}}
+    return emit(prop, tier, seed, t0, runs, extra_cov=extra, models=models)
 
 
 def replay(prop, path):
